@@ -419,10 +419,9 @@ func SaveAutofixChanges(lines *Lines) (autofixed bool) {
 		for _, line := range lines.Lines {
 			if line.fix != nil && line.fix.modified {
 				G.Logger.autofixAvailable = true
-				if G.Logger.Opts.ShowAutofix {
-					// Only in this case can the loaded lines be modified.
-					G.fileCache.Evict(line.Filename())
-				}
+				// Some fixes, such as ReplaceAt, modify the loaded lines
+				// in every mode, therefore don't keep them in the cache.
+				G.fileCache.Evict(line.Filename())
 			}
 		}
 		return
